@@ -98,6 +98,17 @@ by function name, all text derives from the AST; what a spec declares is listed 
     value=[kinds])}`: `d = {}`, `d[contrib.name] = (…)` on a dict kept as an insertion-ordered association list with string
     keys (`name : ι → String`): an existing key keeps its position and gets the new value.
 
+  * A GENERATOR DRIVING A LOOP (SimpleForwardModel.model_full_contrib, C03): `obj_generators={'contrib.prepare_each(self,
+    native_grid)': dict(lean='prepareEach', obj='contrib', elts=['str', 'skip'])}`: `for name, __ in contrib.prepare_each(…)`
+    iterates over `prepareEach contrib : List (String × ι)`, the (yielded name, state of the object AT THAT YIELD) pairs in
+    order — the generator is suspended while the body runs, so inside the body `contrib` is that state (see `obj_gen_loop`);
+    `obj_strs={'name': 'cname'}`: `x = contrib.name` binds a string (`cname : ι → String`); `rec_lists={'xs': ['str', 'arr',
+    'arr2', 'skip']}`: `xs = []`, `xs.append((name, a, t, None))` a list of records; a dict declared with
+    `value_list='xs'` stores such lists under string keys (`d[x] = xs`).
+    `publish='self.sigma_xsec'` (with `yields='list'`): the generator is translated to the list of what that ATTRIBUTE holds at
+    every yield — the state the consumer of the suspended generator reads from the object — instead of the yielded values
+    (see `published_var`: the attribute shares the array of a variable stored to it just before the yield).
+
 Spec keys of this dialect (besides those of Fn): `out`, `returns` (kind or list of kinds; also 'arrlist', 'arr2list',
 'optarr2'), `dims` (python text of an array -> [length per axis]), `objlists`, `obj_assign`, `vallists`, `methods`,
 `obj_externals`, `obj_derived`, `call_list_externals`, `list_externals`, `shaped_externals`, `local_attrs`,
@@ -223,6 +234,9 @@ class FnShaped(translate.Fn):
         self.local_objlists = dict(sp.get('local_objlists', {}))   # attribute holding an object list that is assigned here -> lean name
         self.dicts = dict(sp.get('dicts', {}))            # dict variable -> dict(key=(python text, lean name), value=[kinds])
         self.objlist_elems = {}          # lean name of a local object list -> the object variables it was built from
+        self.obj_generators = dict(sp.get('obj_generators', {}))   # python text of a generator call on a loop object -> dict(lean, obj, elts[])
+        self.obj_strs = dict(sp.get('obj_strs', {}))      # attribute name of a loop object holding a string -> lean name (ι → String)
+        self.rec_lists = dict(sp.get('rec_lists', {}))    # list variable -> kinds of the tuples appended to it ('str' | 'arr' | 'arr2' | 'skip')
         self.uses_iota = False
         self.fresh = 0
         self.ctx = []                    # enclosing binders and the statements translated so far (for the shape obligations)
@@ -1219,6 +1233,51 @@ class FnShaped(translate.Fn):
                 self.objlist_elems.pop(lst, None)
                 return '', False
             self.fail(s, 'unsupported value for an object-list attribute')
+        # ---- x = obj.attr  for a declared string attribute of a loop object
+        if isinstance(s, ast.Assign) and len(s.targets) == 1 and isinstance(s.targets[0], ast.Name) \
+                and isinstance(s.value, ast.Attribute) and isinstance(s.value.value, ast.Name) \
+                and s.value.attr in self.obj_strs and env.get(s.value.value.id) == 'obj':
+            fn = self.obj_strs[s.value.attr]
+            self.add_param(fn, 'ι → String')
+            self.uses_iota = True
+            env[s.targets[0].id] = 'str'
+            return '%slet %s : String := (%s %s)\n' % (ind, self.var(s.targets[0].id), fn, self.var(s.value.value.id)), False
+        # ---- xs = []  /  xs.append((…))  for a declared list of records
+        if isinstance(s, ast.Assign) and len(s.targets) == 1 and isinstance(s.targets[0], ast.Name) \
+                and s.targets[0].id in self.rec_lists and isinstance(s.value, ast.List) and not s.value.elts:
+            env[s.targets[0].id] = 'reclist'
+            return '%slet %s : %s := []\n' % (ind, self.var(s.targets[0].id), self.lean_ty('reclist')), False
+        if isinstance(s, ast.Expr) and isinstance(s.value, ast.Call) and isinstance(s.value.func, ast.Attribute) \
+                and s.value.func.attr == 'append' and isinstance(s.value.func.value, ast.Name) \
+                and env.get(s.value.func.value.id) == 'reclist':
+            c = s.value
+            name = c.func.value.id
+            kinds = self.rec_lists[name]
+            if c.keywords or len(c.args) != 1 or not (isinstance(c.args[0], ast.Tuple) and len(c.args[0].elts) == len(kinds)):
+                self.fail(s, 'the appended tuple does not match its declaration')
+            parts = [self.value_of_kind(e, k, env) for e, k in zip(c.args[0].elts, kinds) if k != 'skip']
+            nm = self.var(name)
+            return '%slet %s : %s := %s ++ [(%s)]\n' % (ind, nm, self.lean_ty('reclist'), nm, ', '.join(parts)), False
+        # ---- d[key] = xs  for a dict declared to hold lists of records (`value_list`): the key a string variable
+        if isinstance(s, ast.Assign) and len(s.targets) == 1 and isinstance(s.targets[0], ast.Subscript) \
+                and isinstance(s.targets[0].value, ast.Name) and env.get(s.targets[0].value.id) == 'dict' \
+                and self.dicts[s.targets[0].value.id].get('value_list'):
+            name = s.targets[0].value.id
+            d = self.dicts[name]
+            kn = s.targets[0].slice
+            if not (isinstance(kn, ast.Name) and env.get(kn.id) == 'str'):
+                self.fail(s, 'the key of the dict store is not a string variable')
+            if not (isinstance(s.value, ast.Name) and s.value.id == d['value_list'] and env.get(s.value.id) == 'reclist'):
+                self.fail(s, 'the stored value is not the declared list of records')
+            key = self.var(kn.id)
+            val = '(%s, %s)' % (key, self.var(s.value.id))
+            nm = self.var(name)
+            # python: an existing key keeps its position and gets the new value, a new key is appended
+            return ('%slet %s : %s := if %s.any (fun e__ => e__.1 == %s) then %s.map (fun e__ => if e__.1 == %s then %s else e__) '
+                    'else %s ++ [%s]\n' % (ind, nm, self.lean_ty('dict'), nm, key, nm, key, val, nm, val)), False
+        # ---- for a, b in obj.gen(…)  for a declared generator method of a loop object
+        if isinstance(s, ast.For) and ast.unparse(s.iter) in self.obj_generators:
+            return self.obj_gen_loop(s, env, ind), False
         # ---- d = {}  /  d[key] = (…)  for a declared dict
         if isinstance(s, ast.Assign) and len(s.targets) == 1 and isinstance(s.targets[0], ast.Name) \
                 and s.targets[0].id in self.dicts and isinstance(s.value, ast.Dict) and not s.value.keys:
@@ -1608,6 +1667,10 @@ class FnShaped(translate.Fn):
             if isinstance(node, ast.Name) and env.get(node.id) == 'dict':
                 return self.var(node.id)
             self.fail(node, 'a dict was declared as the result')
+        if kind == 'str':
+            if isinstance(node, ast.Name) and env.get(node.id) == 'str':
+                return self.var(node.id)
+            self.fail(node, 'a string variable was declared')
         return self.expr(node, env)
 
     @staticmethod
@@ -2053,6 +2116,78 @@ class FnShaped(translate.Fn):
             path += '.2'
         return out
 
+    def obj_gen_loop(self, s, env, ind):
+        """`for a, b in obj.gen(…)` for a GENERATOR METHOD of a loop object, declared in `obj_generators` (python text of the
+        call -> dict(lean, obj, elts)).  The generator is suspended while the loop body runs and resumed for the next
+        element; what one pass of the body sees is (the yielded tuple, the state `obj` is in at that `yield`).  The call is
+        the abstract function `lean : ι → List (String × ι)` of the object as it is when the generator is created: the list
+        of (yielded string, state of the object at that yield) in order (`elts`: one 'str', the others 'skip').  Inside the
+        body `obj` IS that state (and the object lists built from it hold it: python aliasing).  Sound when the body does
+        not itself change the object (checked: no `updates_obj` method, no nested generator on it); after the loop the
+        object is in the state the exhausted generator leaves, which is not modelled: `obj` may not be used again."""
+        g = self.obj_generators[ast.unparse(s.iter)]
+        obj = g['obj']
+        elts = list(g['elts'])
+        if s.orelse or self.has_break(s.body) or any(isinstance(n, ast.Continue) for st in s.body for n in ast.walk(st)):
+            self.fail(s, 'unsupported loop over a generator')
+        if env.get(obj) != 'obj' or not (isinstance(s.iter, ast.Call) and isinstance(s.iter.func, ast.Attribute)
+                                         and isinstance(s.iter.func.value, ast.Name) and s.iter.func.value.id == obj):
+            self.fail(s, 'the generator is not a method of the declared loop object')
+        tg = list(s.target.elts) if isinstance(s.target, ast.Tuple) else [s.target]
+        if len(tg) != len(elts) or not all(isinstance(t, ast.Name) for t in tg) \
+                or [k for k in elts if k != 'skip'] != ['str']:
+            self.fail(s, 'loop target does not match the declared element')
+        for st in s.body:
+            for n in ast.walk(st):
+                if isinstance(n, ast.Call) and isinstance(n.func, ast.Attribute) and isinstance(n.func.value, ast.Name) \
+                        and n.func.value.id == obj and (self.methods.get(n.func.attr, {}).get('updates_obj')
+                                                        or ast.unparse(n) in self.obj_generators):
+                    self.fail(st, 'the loop body changes the object whose generator is suspended')
+                if isinstance(n, (ast.Assign, ast.AugAssign)):
+                    for t in (n.targets if isinstance(n, ast.Assign) else [n.target]):
+                        if (isinstance(t, ast.Name) and t.id == obj) or \
+                                (isinstance(t, ast.Attribute) and isinstance(t.value, ast.Name) and t.value.id == obj):
+                            self.fail(st, 'the loop body changes the object whose generator is suspended')
+        self.add_param(g['lean'], 'ι → List (String × ι)')
+        self.uses_iota = True
+        env2 = dict(env)
+        sname = [t.id for t, k in zip(tg, elts) if k == 'str'][0]
+        for t, k in zip(tg, elts):
+            if k == 'skip':
+                env2.pop(t.id, None)
+        env2[sname] = 'str'
+        names = [n for n in self.assigned(s.body, env) if n in env]
+        if not names:
+            self.fail(s, 'loop without a carried variable')
+        if obj in names or sname in names:
+            self.fail(s, 'the loop body re-binds the loop variables')
+        vs = [self.var(n) for n in names]
+        st_ty = self.state_type(names, env)
+        in2 = ind + '    '
+        head = ''
+        if len(vs) == 1:
+            stvar = vs[0]
+        else:
+            stvar = 'st__'
+            path = 'st__'
+            for i, x in enumerate(vs):
+                head += '%slet %s := %s\n' % (in2, x, path + ('.1' if i < len(vs) - 1 else ''))
+                path += '.2'
+        o = self.var(obj)
+        body = head + '%slet %s : String := g__.1\n%slet %s : ι := g__.2\n' % (in2, self.var(sname), in2, o)
+        for lst, elems in self.objlist_elems.items():
+            if obj in elems:
+                body += '%slet %s : List ι := [%s]\n' % (in2, lst, ', '.join(self.var(e) for e in elems))
+        nctx = len(self.ctx)
+        self.ctx.append('∀ (g__ : String × ι), %s\n' % self.carried_binders(names, env))
+        body += self.block(list(s.body), env2, in2, None, inline=True)
+        body += '%s%s\n' % (in2, self.state_pack(names))
+        del self.ctx[nctx:]
+        src = '(%s %s).foldl (fun (%s : %s) (g__ : String × ι) =>\n%s%s  ) %s' % (
+            g['lean'], o, stvar, st_ty, body, ind, self.state_pack(names))
+        env[obj] = 'exhausted-obj'                        # (its state after the generator has finished is not modelled)
+        return self.unpack(names, src, ind)
+
     def enumerate_loop(self, s, env, ind):
         """`for i, x in enumerate(A)` / `for i, tp in enumerate(zip(A, B))` / `for i, (x, y) in enumerate(zip(A, B))` over
         1-D arrays of declared (equal) length: the `range` loop over the index with the element(s) bound first"""
@@ -2113,6 +2248,41 @@ class FnShaped(translate.Fn):
         return txt
 
     # ------------------------------------------------------------------ generators
+    def published_var(self, ys):
+        """`publish='self.attr'`: the variable whose array the attribute refers to when the generator is suspended at the yield
+        statement `ys`.  Required: a store `self.attr = X` (X a plain variable) earlier in the SAME statement list as the
+        yield, and between the two no statement that re-binds X to another object (`X = …`, a loop target, `with … as X`;
+        element stores `X[…] = …` and `X op= …` act on the same array, which the attribute shares) nor another store to the
+        attribute.  Then attribute and X are the same array object at the yield: its value is X's current value."""
+        attr = self.spec['publish']
+        for node in ast.walk(self.node):
+            for fld in ('body', 'orelse', 'finalbody'):
+                blk = getattr(node, fld, None)
+                if not isinstance(blk, list) or not any(b is ys for b in blk):
+                    continue
+                i = [k for k, b in enumerate(blk) if b is ys][0]
+                for j in range(i - 1, -1, -1):
+                    b = blk[j]
+                    if isinstance(b, ast.Assign) and len(b.targets) == 1 and ast.unparse(b.targets[0]) == attr:
+                        if not isinstance(b.value, ast.Name):
+                            self.fail(b, 'the published attribute is not assigned a plain variable')
+                        x = b.value.id
+                        for mid in blk[j + 1:i]:
+                            for n in ast.walk(mid):
+                                if isinstance(n, ast.Name) and n.id == x and isinstance(n.ctx, (ast.Store, ast.Del)) \
+                                        and not any(isinstance(a, ast.AugAssign) and a.target is n for a in ast.walk(mid)):
+                                    self.fail(mid, 'the published variable is re-bound before the yield')
+                                if isinstance(n, ast.Attribute) and ast.unparse(n) == attr and isinstance(n.ctx, ast.Store):
+                                    self.fail(mid, 'the published attribute is stored twice before the yield')
+                                if isinstance(n, (ast.Yield, ast.YieldFrom)):
+                                    self.fail(mid, 'a yield between the store of the published attribute and the yield')
+                        return x
+                    for n in ast.walk(b):
+                        if isinstance(n, ast.Attribute) and ast.unparse(n) == attr and isinstance(n.ctx, ast.Store):
+                            self.fail(b, 'the published attribute is stored inside a nested statement before the yield')
+                self.fail(ys, 'no store of the published attribute %s before the yield in the same block' % attr)
+        self.fail(ys, 'yield statement not found')
+
     def np_yield(self, s, env, ind, rest, inline):
         y = s.value.value
         if not (isinstance(y, ast.Tuple) and len(y.elts) == 2):
@@ -2126,6 +2296,11 @@ class FnShaped(translate.Fn):
         if mode == 'list':
             if env.get('yield__') != 'arr2list':
                 self.fail(s, 'yield outside the generator body')
+            if self.spec.get('publish'):
+                # the list of what the declared ATTRIBUTE holds at every yield (what the consumer of the suspended generator
+                # reads from the object) instead of the yielded values
+                return self.list_append('yield__', ast.copy_location(ast.Name(id=self.published_var(s), ctx=ast.Load()), s),
+                                        env, ind, s), False
             return self.list_append('yield__', y.elts[1], env, ind, s), False
         self.fail(s, 'yield in a function that is not declared as a generator')
 
@@ -2153,6 +2328,13 @@ class FnShaped(translate.Fn):
             return 'List (Nat × (Nat → α))'
         if kind == 'optlarrlist':
             return 'Option (List (Nat × (Nat → α)))'
+        if kind == 'str':
+            return 'String'
+        if kind == 'reclist':                              # a list of tuples (records) of strings and arrays
+            (kinds,) = self.rec_lists.values()
+            return 'List (%s)' % ' × '.join('(' + self.lean_ty(k) + ')' for k in kinds if k != 'skip')
+        if kind == 'dict' and len(self.dicts) == 1 and list(self.dicts.values())[0].get('value_list'):
+            return 'List (String × (%s))' % self.lean_ty('reclist')
         if kind == 'dict':                                 # a python dict, in insertion order: keys are strings
             (d,) = self.dicts.values()
             return 'List (String × (%s))' % ' × '.join('(' + self.lean_ty(k) + ')' for k in d['value'] if k != 'skip')
